@@ -73,6 +73,8 @@ import validity as _VAL
 PROPS["C10"]["extra"] = _FL.chain(PROPS["C10"]["extra"], _VAL.extra_kill)
 PROPS["C17"]["extra"] = _FL.chain(PROPS["C17"]["extra"], _VAL.extra_loopback)
 PROPS["C02"]["extra"] = _FL.chain(PROPS["C02"]["extra"], _VAL.extra_loopback) if PROPS["C02"].get("extra") else _VAL.extra_loopback
+PROPS["C17"]["extra"] = _FL.chain(PROPS["C17"]["extra"], _VAL.extra_closing)
+PROPS["C02"]["extra"] = _FL.chain(PROPS["C02"]["extra"], _VAL.extra_closing)
 
 STALE_PROPS = ("C02", "C11", "C12", "C13")
 
